@@ -30,6 +30,7 @@ type Gen struct {
 	fresh     int
 	autoAxioms []string
 	constGlob  map[string]*ssa.Const
+	nonNilGlob map[string]bool // maps made in init and never reassigned
 	axiomSeen map[string]bool
 }
 
@@ -377,7 +378,15 @@ func (g *Gen) constGlobals() map[string]*ssa.Const {
 				if !ok || gv.Pkg != g.pkg {
 					continue
 				}
-				if c, isConst := st.Val.(*ssa.Const); isConst && isInit {
+				if _, isMk := st.Val.(*ssa.MakeMap); isMk && isInit {
+					if g.nonNilGlob == nil {
+						g.nonNilGlob = map[string]bool{}
+					}
+					if g.nonNilGlob[gv.Name()] {
+						stored[gv.Name()] = true
+					}
+					g.nonNilGlob[gv.Name()] = true
+				} else if c, isConst := st.Val.(*ssa.Const); isConst && isInit {
 					if _, dup := out[gv.Name()]; dup {
 						stored[gv.Name()] = true
 					}
@@ -406,6 +415,7 @@ func (g *Gen) constGlobals() map[string]*ssa.Const {
 	}
 	for n := range stored {
 		delete(out, n)
+		delete(g.nonNilGlob, n)
 	}
 	g.constGlob = out
 	return out
